@@ -77,6 +77,13 @@ pub open spec fn qpush(a: S, b: S, p: GcPtr) -> bool {
 pub open spec fn m_same_but_marked(a: MV, b: MV) -> bool {
     b == (MV { marked: b.marked, ..a })
 }
+/// the objects that have left White in this cycle (weakly marked, queued or marked) / the Black ones
+pub open spec fn nwset(objs: Map<GcPtr, Obj>) -> Set<GcPtr> { objs.dom().filter(|q: GcPtr| objs[q].color != GcColor::White) }
+pub open spec fn blkset(objs: Map<GcPtr, Obj>) -> Set<GcPtr> { objs.dom().filter(|q: GcPtr| objs[q].color == GcColor::Black) }
+/// mark work is counted once per object: the `marked` counter moves by exactly the number of objects that left White (T-pace)
+pub open spec fn marks_cnt(pre: S, post: S) -> bool {
+    post.m.marked - pre.m.marked == nwset(post.objs).len() - nwset(pre.objs).len()
+}
 
 // ==================================================================================================
 // Context::root_barrier
@@ -168,7 +175,7 @@ pub open spec fn backward_barrier_pre(s: S, parent: GcPtr, child: Option<GcPtr>)
 }
 pub open spec fn backward_barrier_rel(pre: S, post: S, parent: GcPtr, child: Option<GcPtr>) -> bool {
     // either nothing happened or the parent was re-queued (make_gray_again)
-    same(pre, post) || (pre.phase == Phase::Mark && make_gray_again_rel(pre, post, parent))
+    same(pre, post) || (pre.phase == Phase::Mark && pre.objs[parent].color == GcColor::Black && make_gray_again_rel(pre, post, parent))
 }
 pub open spec fn backward_barrier_post(post: S, parent: GcPtr, child: Option<GcPtr>) -> bool {
     match child { Some(c) => can_adopt(post, parent, c), None => can_adopt_any(post, parent) }
@@ -268,6 +275,7 @@ pub open spec fn marks_rel(pre: S, post: S, es: Seq<Edge>) -> bool {
     &&& forall|q: GcPtr| !isobj(pre, q) ==> #[trigger] qcount(post, q) == qcount(pre, q)
     // counters: only `marked` moves, by the number of objects that left White
     &&& m_same_but_marked(pre.m, post.m) && pre.m.marked <= post.m.marked <= pre.m.marked + es.len()
+    &&& marks_cnt(pre, post)
 }
 /// every edge of `es` has been traced
 pub open spec fn all_done(post: S, es: Seq<Edge>) -> bool { forall|k: int| 0 <= k < es.len() ==> edge_done(post, #[trigger] es[k]) }
